@@ -216,6 +216,8 @@ class Evaluator:
                 inner = base[1]
                 if isinstance(inner, tuple) and inner and inner[0] == 'refl':
                     inner = env.get(inner[1], ('uninit', inner[1]))
+                if inner[0] == 'try' and base[2] == 'Continue':
+                    return self.project(('down', inner[1], 'Some'), k, env)
                 if inner[0] == 'agg' and inner[1].split('::')[-1] == base[2]:
                     return self._agg_field(inner, k)
                 return ('field', inner, base[2], k)
@@ -240,7 +242,7 @@ class Evaluator:
             return v
         if v[0] == 'refl':
             return self.res(env.get(v[1], ('uninit', v[1])), env)
-        if v[0] in ('int', 'bool', 'str', 'const', 'param', 'uninit'):
+        if v[0] in ('int', 'bool', 'str', 'const', 'param', 'uninit', 'vec'):
             return v
         if v[0] == 'down':
             return ('down', self.res(v[1], env), v[2])
@@ -364,7 +366,7 @@ class Evaluator:
             a, b = sorted(v[2], key=repr)
             return ('eq', a, b), v[1].endswith('eq')
         if v[0] == 'call' and v[1] in ('Option::is_none', 'Option::is_some'):
-            return ('variant', v[2][0], 'Some'), v[1].endswith('is_some')
+            return ('is_some', v[2][0]), v[1].endswith('is_some')
         return v, True
 
     # -- path enumeration ----------------------------------------------------
@@ -466,6 +468,12 @@ class Evaluator:
             self._walk(fn, tgt, env, conds, events, visited, decided, stops, out, depth, entry)
             return
         labels = [lab for lab, _ in t.targets]
+        if v[0] == 'discr' and v[1][0] == 'try':
+            # ControlFlow: 0 = Continue (Some), 1 = Break (None)
+            opt = v[1][1]
+            t2 = mir.Term('switch', [('1' if lab == '0' else ('0' if lab == '1' else lab), b) for lab, b in t.targets])
+            self._switch(fn, t2, ('discr', opt, 'Option'), env, conds, events, visited, decided, stops, out, depth, entry)
+            return
         if v[0] == 'discr':
             inner, enum = v[1], v[2]
             if inner[0] == 'agg':  # known constructor
@@ -544,11 +552,19 @@ class Evaluator:
                 val = args[0]
         elif name in ITER_MAKERS:
             val = ('iter', args[0])
+        elif name in ('Vec::new', 'Vec::with_capacity'):
+            val = ('vec', fn.short, bb)        # identity of a fresh vector = its creation site
         elif name in ('Option::expect', 'Option::unwrap', 'Result::expect', 'Result::unwrap'):
             opt = args[0]
             okv = 'Some' if name.startswith('Option') else 'Ok'
-            events.append(Event('guard', name, (('variant', opt, name.split('::')[0]), okv), None, bb, fn.short))
-            val = ('field', opt, okv, 0)
+            if not (opt[0] == 'agg' and opt[1].split('::')[-1] == okv):
+                events.append(Event('guard', name, (('variant', opt, name.split('::')[0]), okv), None, bb, fn.short))
+            val = self.project(('down', opt, okv), 0, env)
+        elif name == 'Try::branch' and len(args) == 1:
+            # `?` on an Option: Continue(v) iff Some(v)   (std semantics, stated assumption)
+            val = ('try', args[0])
+        elif name == 'FromResidual::from_residual':
+            val = ('agg', 'Option::None', ())
         elif name in ('Fn::call', 'FnMut::call_mut', 'FnOnce::call_once') and args and args[0][0] == 'closure':
             val = self._inline_closure(fn, args[0], args[1:], env, conds, events, depth, bb)
         else:
@@ -571,6 +587,9 @@ class Evaluator:
                         # a local function that may write through `&mut local`: the local now holds "what the callee left there"
                         for i, ((_pn, pty), ra) in enumerate(zip(callee.params, raw_args)):
                             if pty.startswith('&mut ') and self._is_ref(ra):
+                                cur = env.get(ra[1])
+                                if isinstance(cur, tuple) and cur and cur[0] == 'vec':
+                                    continue      # same container object, contents changed: identity is what matters
                                 env[ra[1]] = ('mut', name, i, args)
         self.assign(fn, t.dest, val, env, events, bb)
         return ret_bb, events, conds
@@ -703,8 +722,14 @@ def show(v) -> str:
         return f'iter({show(v[1])})'
     if k == 'eq':
         return f'{show(v[1])} == {show(v[2])}'
+    if k == 'is_some':
+        return f'is_some({show(v[1])})'
+    if k == 'try':
+        return f'{show(v[1])}?'
     if k == 'uninit':
         return f'?_{v[1]}'
+    if k == 'vec':
+        return f'vec@{v[2]}'
     if k == 'mut':
         return f'{v[1]}!{v[2]}({", ".join(show(a) for a in v[3])})'
     if k == 'intval':
